@@ -102,9 +102,14 @@ class C17(Prop):
                 out.append(case("return string(%s);" % lit(v), enc_value(insp(v)), "string"))
         out.append(case("return type(/a/);", enc_value("regexp"), "type"))
         for s, v in [("12", 12), ("-7", -7), ("+3", 3), ("x", None), ("", None), ("1.5", None), ("9223372036854775807", 9223372036854775807),
-                     ("9223372036854775808", None), (" 1", None)]:
+                     ("9223372036854775808", None), (" 1", None),
+                     ("010", 10), ("-012", -12), ("08", 8), ("09", 9), ("007", 7), ("0123456789", 123456789), ("0x10", None), ("0X1f", None),
+                     ("0b11", None), ("0o17", None), ("1_000", None), ("0_1", None), ("00", 0), ("-0", 0), ("1e3", None), ("١٢", None),
+                     ("12 ", None), ("--1", None), ("+-1", None), ("+", None), ("-", None), ("-9223372036854775808", -9223372036854775808),
+                     ("-9223372036854775809", None), ("000000000000000000000000012", 12)]:
             out.append(case("return int(%s);" % lit(s), enc_value(v), "int"))
-        for s, v in [("1.5", 1.5), ("-2", -2.0), ("x", None), ("", None), ("1e3", 1000.0), (".5", 0.5)]:
+        for s, v in [("1.5", 1.5), ("-2", -2.0), ("x", None), ("", None), ("1e3", 1000.0), (".5", 0.5), ("010", 10.0), 
+                     ("inf", float("inf")), ("-Inf", float("-inf")), ("1e400", None), (" 1", None), ("5.", 5.0), ("0x1p-2", 0.25), ("1e", None), ("+.5e1", 5.0)]:
             out.append(case("return float(%s);" % lit(s), enc_value(v), "float"))
         out.append(case("return int(3);", "i3", "int"))
         out.append(case("return float(3);", enc_value(3.0), "float"))
